@@ -752,7 +752,17 @@ func genC18(r *simrt.Rand, tier string, idx uint64) *Plan {
 		for c := 0; c < 1+r.Intn(8); c++ {
 			p.Clients = append(p.Clients, ClientPlan{Ops: []Op{{Kind: "spin", N: r.Intn(12)}, {Kind: cForms[r.Intn(len(cForms))]}, {Kind: cForms[r.Intn(len(cForms))]}}})
 		}
-		p.Clients = append(p.Clients, ClientPlan{Ops: []Op{{Kind: "spin", N: r.Intn(30)}, {Kind: "sleep", N: r.Intn(dt) * 1000 / 2}, {Kind: "close"}, {Kind: "sleep", N: 10000}, {Kind: cForms[r.Intn(len(cForms))]}}})
+		closeAt := r.Intn(dt) * 1000 / 2 // µs
+		p.Clients = append(p.Clients, ClientPlan{Ops: []Op{{Kind: "spin", N: r.Intn(30)}, {Kind: "sleep", N: closeAt}, {Kind: "spin", N: r.Intn(6)}, {Kind: "close"}, {Kind: "sleep", N: 10000}, {Kind: cForms[r.Intn(len(cForms))]}}})
+		// callers that start their call at the very instant of the Close: registration races Close
+		for c := 0; c < r.Intn(5); c++ {
+			p.Clients = append(p.Clients, ClientPlan{Ops: []Op{{Kind: "sleep", N: closeAt}, {Kind: "spin", N: r.Intn(10)}, {Kind: cForms[r.Intn(len(cForms))]}}})
+		}
+		if r.Chance(1, 3) {
+			// routing paused although a target may be live: callers go straight to the waiter table
+			p.Targets[0].Up = [][2]int{{0, 1}}
+			p.Clients = append(p.Clients, ClientPlan{Ops: []Op{{Kind: "fallback", N: (dt + 1000) * 1000}}})
+		}
 	case 3: // Fallback pauses routing although targets are live
 		fb := 100 + r.Intn(dt+500)
 		p.Params["fallback_ms"] = fb
@@ -870,14 +880,24 @@ func checkC18(w *World, run *simrt.Run) {
 			switch {
 			case r.Start < cs.closeInvoke && r.End > cs.closeReturn:
 				// was waiting when Close ran: released at once with ErrShutdown
-				if r.EndT != cs.closeT && r.EndT-r.StartT != dt {
+				if r.Err == "" {
+					w.Probe("call-in-flight-across-close-succeeded")
+				} else if r.EndT != cs.closeT && r.EndT-r.StartT != dt {
 					w.Violate("C18.close", "waiter-not-released-by-close:"+r.Form, fmt.Sprintf("caller %d %s: Close at %v, returned %v", r.Caller, r.Form, cs.closeT, r.EndT))
 				} else if r.Err == "" {
-					w.Violate("C18.close", "waiter-succeeded-after-close:"+r.Form, fmt.Sprintf("caller %d", r.Caller))
+					// it was not waiting: it had been routed and was in flight in the transport
+					w.Probe("call-in-flight-across-close-succeeded")
 				} else if (r.Form == "call" || r.Form == "ctx") && r.ErrKind != "shutdown" && r.EndT == cs.closeT && r.EndT-r.StartT != dt {
 					w.Violate("C18.close", "wrong-error-after-close:"+r.Form, fmt.Sprintf("caller %d %s got %q, want ErrShutdown", r.Caller, r.Form, r.Err))
 				} else {
 					w.Probe("waiter-released-by-close")
+				}
+			case r.Start >= cs.closeInvoke && r.Start <= cs.closeReturn:
+				// started while Close was running: either sees the closed Client at once or is released by it
+				if r.EndT != cs.closeT {
+					w.Violate("C18.close", "caller-racing-close-stranded:"+r.Form, fmt.Sprintf("caller %d %s started while Close was running (at %v) and returned only at %v (DialTimeout %v, err %q)", r.Caller, r.Form, cs.closeT, r.EndT, dt, r.Err))
+				} else {
+					w.Probe("caller-racing-close-released")
 				}
 			case r.Start > cs.closeReturn:
 				if r.EndT != r.StartT {
